@@ -222,7 +222,9 @@ Definition case_of (p : pcase) (r : prun) : ccase :=
 
 Definition judge_apply (p : pcase) : N :=
   let cs := map (case_of p) (pc_runs p) in
-  bits (forallb agree cs) (forallb spec cs) (forallb dom cs) (existsb nontrivial cs).
+  (* the premises do not depend on the draws: evaluated once, for the applying mode *)
+  bits (forallb agree cs) (forallb spec cs)
+       (dom (case_of p {| pr_collect := false; pr_draws := []; pr_out := [] |})) (existsb nontrivial cs).
 (* per-run bits, for --replay / debugging *)
 Definition judge_runs (p : pcase) : list N :=
   map (fun c => bits (agree c) (spec c) (dom c) (nontrivial c)) (map (case_of p) (pc_runs p)).
@@ -230,3 +232,11 @@ Definition judge_runs (p : pcase) : list N :=
 (* for --replay / debugging *)
 Definition model_out (c : ccase) :=
   load_collection (cs_collect c) (cs_draws c) (cs_filters c) (cs_rules c).
+
+(* --replay: per run, the judge bits and the model's rules (detection maps, condition strings as code points) *)
+Definition model_runs (p : pcase) :=
+  map (fun c => (bits (agree c) (spec c) (dom c) (nontrivial c),
+                 match model_out c with
+                 | Some (rs, rest) => Some (map (fun r => (r_dets r, r_conds r)) rs, rest)
+                 | None => None end))
+      (map (case_of p) (pc_runs p)).
